@@ -6,6 +6,7 @@ import Sdmmc.Model.Mgr
 import Sdmmc.Model.Crc
 import Sdmmc.Model.Csd
 import Sdmmc.Spec.Poly
+import Sdmmc.Spec.Fs
 
 namespace Sdmmc.Driver
 
@@ -15,6 +16,10 @@ structure DState where
   mgr : Mgr := { dev := { disk := Disk.empty }, nextId := 0, maxVols := 1, maxDirs := 4, maxFiles := 4 }
   /-- the implementation's medium, rebuilt from the writes the harness reports -/
   shadow : Disk := Disk.empty
+  /-- a saved copy of `shadow` (crash-prefix exploration) -/
+  base : Disk := Disk.empty
+  /-- geometry of the volume the specification verbs look at (from the formatter, not from the model) -/
+  geom : Spec.Fs.Geom := default
   deriving Inhabited
 
 /-! ### Formatting -/
@@ -54,7 +59,7 @@ def showPayload : Payload → String
   | .entries es => "ok l " ++ ";".intercalate (es.map showEntry)
   | .lfnEntries es => "ok L " ++ ";".intercalate (es.map fun (e, n) =>
       showEntry e ++ (match n with | some b => "=" ++ hexOrDash b | none => "~"))
-  | .label l => match l with | some b => s!"ok v {hexOfBytes b}" | none => "ok v none"
+  | .label l => match l with | some b => s!"ok v {hexOrDash (volumeNameTrim b)}" | none => "ok v none"
 
 def showRes {α} (f : α → String) : Res α → String
   | .ok a => f a
@@ -250,6 +255,70 @@ def handle (st : DState) (line : String) : DState × String :=
     let ds := st.mgr.dirs.map fun d => s!"{d.rawDirectory}/{d.rawVolume}/{d.cluster}"
     let vs := st.mgr.vols.map fun v => s!"{v.rawVolume}/{v.idx}/{showOptNat v.vol.freeClustersCount}/{showOptNat v.vol.nextFreeCluster}"
     (st, s!"next={st.mgr.nextId} files={",".intercalate fs} dirs={",".intercalate ds} vols={",".intercalate vs}")
+  | ["geom", ft, lba, total, bpc, fs, fsz, nf, rs, rb, fd, cl, rc, ib] =>
+    match [lba, total, bpc, fs, fsz, nf, rs, rb, fd, cl, rc, ib].mapM String.toNat? with
+    | some [lba, total, bpc, fs, fsz, nf, rs, rb, fd, cl, rc, ib] =>
+      ({ st with geom := { fat32 := ft = "32", lba, total, bpc, fatStart := fs, fatSize := fsz, nFats := nf, rootStart := rs,
+                           rootBlocks := rb, firstData := fd, clusters := cl, rootCluster := rc, infoBlock := ib } }, "ok")
+    | _ => (st, "bad-op")
+  | ["snap"] => ({ st with base := st.shadow }, "ok")
+  | ["restore"] => ({ st with shadow := st.base }, "ok")
+  | ["fsck", mode] =>
+    -- mode: "live" = with the pending entries of the model's open files and the size clause;
+    --       "crash" = no pending state (memory is gone), size not required to be up to date
+    let ps : List Spec.Fs.Pending := if mode = "live" then
+        st.mgr.files.map fun f => { blk := f.entry.entryBlock, off := f.entry.entryOffset, cluster := f.entry.cluster, size := f.entry.size }
+      else []
+    let v := Spec.Fs.fsck st.geom st.shadow ps (mode = "live")
+    let head := if v.problems.isEmpty then "ok" else "fail " ++ "|".intercalate (v.problems.take 4)
+    (st, s!"{head} dirs={v.dirs} files={v.files} used={v.used} reach={v.reachable} leaked={v.leaked.length}:" ++
+         ",".intercalate ((v.leaked.take 6).map toString))
+  | ["tree"] => (st, "#".intercalate (Spec.Fs.dumpTree st.geom st.shadow))
+  | ["fcheck", path, n] =>
+    -- the file at `path` (11-byte names in hex separated by '/'): its recorded size and the digest of its first n bytes
+    match (path.splitOn "/").mapM bytesOfHex, n.toNat? with
+    | some ns, some n =>
+      match ns.reverse with
+      | [] => (st, "bad-op")
+      | fname :: revDirs =>
+        match Spec.Fs.findDir st.geom st.shadow revDirs.reverse (Spec.Fs.rootRef st.geom) with
+        | .error e => (st, "missing " ++ e)
+        | .ok ref =>
+          match Spec.Fs.dirSlots st.geom st.shadow ref with
+          | .error e => (st, "missing " ++ e)
+          | .ok (ss, _) =>
+            match (Spec.Fs.objects ss).find? fun s => Spec.Fs.nameOf s = fname ∧ !Spec.Fs.isDirSlot s with
+            | none => (st, "missing no-such-file")
+            | some s =>
+              let c := Spec.Fs.clusterOf st.geom s
+              match (if c = 0 then (.ok [] : Except String (List Nat)) else Spec.Fs.chain st.geom st.shadow c) with
+              | .error e => (st, "broken " ++ e)
+              | .ok cs =>
+                let body := Spec.Fs.fileBytes st.geom st.shadow cs (Spec.Fs.sizeOf s)
+                (st, s!"found {Spec.Fs.sizeOf s} {fnv64 (body.take n)} {(body.take n).length}")
+    | _, _ => (st, "bad-op")
+  | ["mirror"] =>
+    match Spec.Fs.mirrorOK st.geom st.shadow with
+    | none => (st, "ok")
+    | some i => (st, s!"fail fat-copy-differs-at-block-offset:{i}")
+  | ["free"] => (st, toString (Spec.Fs.freeCount st.geom st.shadow))
+  | ["info"] =>
+    let b := st.shadow.get st.geom.infoBlock
+    (st, s!"{Spec.Fs.rd32 b 488} {Spec.Fs.rd32 b 492}")
+  | ["slots", path] =>
+    -- path: 11-byte names in hex separated by '/', "-" = root; answer: the raw slots of that directory
+    let names : Option (List Bytes) := if path = "-" then some [] else (path.splitOn "/").mapM bytesOfHex
+    match names with
+    | none => (st, "bad-op")
+    | some ns =>
+      match Spec.Fs.findDir st.geom st.shadow ns (Spec.Fs.rootRef st.geom) with
+      | .error e => (st, "err " ++ e)
+      | .ok ref =>
+        match Spec.Fs.dirSlots st.geom st.shadow ref with
+        | .error e => (st, "err " ++ e)
+        | .ok (ss, cs) =>
+          let live := Spec.Fs.liveSlots ss
+          (st, s!"ok chain={",".intercalate (cs.map toString)} live=" ++ ";".intercalate (live.map fun s => s!"{s.blk}:{s.off}:{hexOfBytes s.bytes}"))
   | _ =>
     match handlePure toks with
     | some r => (st, r)
